@@ -135,6 +135,11 @@ func (s *Solver) ref(t *Term) string {
 		return name
 	}
 	var sb strings.Builder
+	if t.Op == OFRound32 {
+		s.send(fmt.Sprintf("(define-fun %s () %s ((_ to_fp 11 53) RNE ((_ to_fp 8 24) RNE %s)))", name, t.Sort, s.ref(t.Args[0])))
+		s.defined[0][t.ID] = true
+		return name
+	}
 	sb.WriteString("(")
 	sb.WriteString(t.Head())
 	for _, a := range t.Args {
